@@ -88,6 +88,15 @@ Body(int tid)
       W->hb_seen = ((vs::HbKnown(1) >> 3) & 1ULL) != 0;
       snprintf(W->res[1], sizeof W->res[1], "hb=%d", W->hb_seen ? 1 : 0);
     }
+  } else if (g_mode == "hang") {  // S6: a loop in plain code that never reaches a scheduling point
+    if (tid == 0) {
+      (void)W->x.load(kSc);
+      volatile long *p = &W->plain;
+      while (*p == 0) {
+      }
+    } else {
+      W->y.store(1, kSc);
+    }
   } else if (g_mode == "seq3") {  // S5: writer 1,2,3 / reader three loads
     if (tid == 0) {
       for (uint64_t v = 1; v <= 3; ++v) W->x.store(v, kSc);
@@ -140,6 +149,7 @@ RunOne(const std::string &mode, int bound)
   cfg.bound = bound;
   cfg.iterate = true;
   cfg.budget_s = 60;
+  cfg.hang_cpu_s = 2;
   auto r = vs::Explore(s, cfg);
   std::set<std::string> outs(r.outcomes.begin(), r.outcomes.end());
   std::set<std::string> sigs;
@@ -208,6 +218,7 @@ main()
       {"uaf", -1, "exh=1 out=, viol=UAF,"},
       {"hb-rel", -1, "exh=1 out=hb=1, viol="},
       {"hb-rlx", -1, "exh=1 out=hb=0, viol="},
+      {"hang", 0, "exh=0 out= viol=HANG,"},
   };
   for (int b : {0, 1, 2, 3, 4, 5, -1}) cases.push_back({"seq3", b, "exh=1 out=" + Join(BruteSeq3(b)) + " viol="});
   std::vector<vs::Job> jobs;
